@@ -239,6 +239,9 @@ type caseRec struct {
 	Result  value.V   `json:"result"`
 	Fault   gen.Fault `json:"fault"`
 	Message string    `json:"message"`
+	// CallerMD: the context handed to the generated client already carries
+	// outgoing metadata of the caller's own (a request ID, a trace header)
+	CallerMD bool `json:"caller_md,omitempty"`
 }
 
 func TestGRPC(t *testing.T) {
@@ -379,6 +382,7 @@ func checkMethod(t *testing.T, b *rt.Built, s *m.Service, meth *m.Method) bool {
 					c.Kind, c.Result, c.Fault = "result-mutant", mut, f
 				}
 			}
+			c.CallerMD = rapid.IntRange(0, 3).Draw(rt_, "caller-metadata") == 0
 			res := runCase(b, s, meth, c)
 			record(d, meth, c)
 			if res != "" {
@@ -469,6 +473,10 @@ func runCase(b *rt.Built, s *m.Service, meth *m.Method, c *caseRec) string {
 	d := b.Design
 	hc := &harness.Case{Op: "call", Transport: "grpc", Svc: s.Name, Method: meth.Name, HasPayload: meth.Payload != nil, Payload: c.Payload}
 	hc.Stub = harness.StubSpec{HasResult: meth.Result != nil, Result: c.Result, View: "default"}
+	hc.CallerMD = c.CallerMD
+	if c.CallerMD {
+		stats.Class("caller-context-carries-outgoing-metadata")
+	}
 	obs, err := b.H.Do(hc)
 	if err != nil {
 		return "INCONCLUSIVE harness: " + err.Error()
